@@ -20,7 +20,7 @@ RULE = (
 )
 ASSUMPTIONS = ["statistical channel: 2e5 draws per law, 7 standard errors per moment entry (false alarm ~1e-11 per entry)",
                "nearest-neighbour near-ties within 1e-9 relative squared distance accept either design"]
-N = {"quick": 96, "thorough": 2400}
+N = {"quick": 96, "thorough": 9600}
 REQUIRE = {"quick": {"lookup_events": 1500, "law_events": 24, "law_correlated": 12, "decoupled_events": 600,
                      "immutability_events": 1000, "branin_zero_inputs": 30, "dataset_checks": 4,
                      "normalize_events": 200, "closest_events": 100, "normalize_out_of_bounds_events": 100}}
